@@ -315,3 +315,26 @@ package alephium
 //@   loop [range events.Events]:
 //@     invariant [from-core-contract] forall k in 0..len(reobservedEvents) :: reobservedEvents[k] != nil && allocated(reobservedEvents[k]) && reobservedEvents[k].ContractEventByTxId != nil && allocated(reobservedEvents[k].ContractEventByTxId) && reobservedEvents[k].ContractAddress == address && reobservedEvents[k].EventIndex == 0 && reobservedEvents[k].header != nil
 //@     invariant [self] w != nil && w.client != nil && client != nil
+
+//@ pred isTransferFields(fs []sdk.Val) = len(fs) == 6 && fs[4].ValByteVec != nil && len(bytevecval(fs[4])) > 0 && bytevecval(fs[4])[0] == 1
+//@ func (w *Watcher) handleObsvRequest(ctx context.Context, logger *zap.Logger, client *Client)
+//@   props C08
+//@   requires w != nil && w.client != nil && client != nil && w.chainIndex != nil
+//@   modifies *
+//@   replay alephium_reobserve.go.tmpl
+//@   at [events, err := w.getGovernanceEventsByTxId(ctx, logger, client, w.governanceContractAddress, blockHash, txId)]: assume-env [node-reports-sane-headers] forall k in 0..len(events) :: events[k] != nil ==> events[k].header != nil ==> saneHeader(events[k].header)
+//@   at [confirmed = append(confirmed, event)]: assert [canonical-in-this-request] isCanonical != nil && *isCanonical
+//@   at [confirmed = append(confirmed, event)]: assert [enough-blocks] event.header.Height + event.confirmations <= *currentHeight
+//@   at [confirmed = append(confirmed, event)]: assert [mainnet-time-floor] w.isMainnet && isTransferFields(event.Fields) ==> (event.header.Timestamp + (event.confirmations >= 205 ? event.confirmations : 205) * 16000) * 1000000 <= ghostNow()
+//@   loop [for]:
+//@     invariant [self] w != nil && w.client != nil && client != nil && w.chainIndex != nil
+//@   loop [range events]:
+//@     invariant [self] w != nil && w.client != nil && client != nil && currentHeight != nil && isCanonical != nil && *isCanonical
+//@     invariant [events] forall k in 0..len(events) :: events[k] != nil && events[k].ContractEventByTxId != nil && events[k].header != nil && saneHeader(events[k].header)
+//@     invariant [confirmed] forall k in 0..len(confirmed) :: confirmed[k] != nil && confirmed[k].ContractEventByTxId != nil && confirmed[k].header != nil && confirmed[k].header.Timestamp >= 0
+
+//@ func (w *Watcher) handleGovernanceMessages(logger *zap.Logger, confirmed []*reobservedEvent) (err error)
+//@   props C08
+//@   requires w != nil && (forall i in 0..len(confirmed) :: confirmed[i] != nil && confirmed[i].ContractEventByTxId != nil && confirmed[i].header != nil && confirmed[i].header.Timestamp >= 0)
+//@   modifies chan:*common.MessagePublication, fresh common.MessagePublication.*, fresh lib:big.Int.v, fresh cell:uint8, fresh cell:Byte32, fresh WormholeMessage.*
+//@   at [w.msgChan <- wormholeMsg.toMessagePublication(e.header)]: assert [only-token-bridge-sender] wormholeMsg.senderId == w.tokenBridgeContractId
